@@ -13,18 +13,19 @@ func (p *Pool) Send(ctx context.Context, e Event) {
 		p.stopM.RUnlock()
 		return
 	}
+	pCtx, ch := p.ctx, p.ch
 	p.sendWg.Add(1)
 	p.stopM.RUnlock()
 	defer p.sendWg.Done()
 
-	if p.ctx.Err() != nil {
+	if pCtx.Err() != nil {
 		return
 	}
 
 	select {
-	case <-p.ctx.Done():
+	case <-pCtx.Done():
 		return
-	case p.ch <- e:
+	case ch <- e:
 	case <-time.After(p.opts.SendDuration):
 		p.lazySend(e)
 	}
